@@ -29,6 +29,7 @@ RULE = (
     "moved equilibria. distinct = (problem kind, rod formulation, load steps, fault, placement); non-trivial = solution with "
     ">= 2 points whose last point differs from the reference configuration"
 )
+RULE += " Rigid static problems may carry initial velocities and Kelvin-Voigt dampers (a static solution must not see them)."
 COMPONENTS = {
     "real": ["solver.statics.Newton / Riks", "fsolve", "all Cosserat rod formulations", "RigidConnection, Force, B_Moment, springs, Sphere2Plane", "System"],
     "stub": ["tqdm -> SimProgress (load-step seam)", "Truss2D duck-typed contribution (from the repository's own test)"],
